@@ -476,7 +476,7 @@ def _all_shapes(ir, b, g, intern):
 
 
 # whether the phase-D chain fold of the real pass refreshes its members (false until the stale-shape defect is repaired)
-_CHAIN_RF = "false"
+_CHAIN_RF = "true"
 
 _SHAPE_CHK = """
 Definition dims_eqb (a b : option (list dim)) : bool :=
@@ -813,7 +813,51 @@ def _reduce_attrs(ir, n):
         if ax is not None and ax.type == ir.AttributeType.INTS:
             return [0 if kdv is None or kdv < 0 else kdv + 1, 1] + [_enc_z(int(a)) for a in ax.as_ints()]
         return [0 if kdv is None or kdv < 0 else kdv + 1, 0]
+    if n.op_type == "Constant" and n.domain == "":
+        val = n.attributes.get("value")
+        if val is not None and val.type == ir.AttributeType.TENSOR:
+            arr = np.asarray(val.as_tensor().numpy())
+            if arr.dtype == np.int64 and arr.ndim == 1 and all(int(x) >= 0 for x in arr):
+                return [5] + [2 * int(x) for x in arr]
     return []
+
+
+def _function_body_reduce_case(ir, opt, i):
+    """the pass on the BODY of a function (function graphs cannot carry initializers: the re-mapped axes must be a Constant node):
+    x[2,3,4] -T(0,2,1)-> ReduceMean(axes input, keepdims=1) -T(0,2,1)-> y inside custom::F, called once from the main graph;
+    returns (outputs before, outputs after) of the whole model in onnxruntime"""
+    import onnx
+    from onnx import helper as H, TensorProto as TP
+    ax = [[1], [-1], [0, 2]][i % 3]
+    body = [H.make_node("Constant", [], ["ax"], value=H.make_tensor("axv", TP.INT64, [len(ax)], ax)),
+            H.make_node("Transpose", ["x"], ["t"], perm=[0, 2, 1]),
+            H.make_node("ReduceMean", ["t", "ax"], ["r"], keepdims=1),
+            H.make_node("Transpose", ["r"], ["y"], perm=[0, 2, 1])]
+    fn = H.make_function("custom", "F", ["x"], ["y"], body, opset_imports=[H.make_opsetid("", 18)])
+    g = H.make_graph([H.make_node("F", ["a"], ["b"], domain="custom")], "g", [H.make_tensor_value_info("a", TP.FLOAT, [2, 3, 4])],
+                     [H.make_tensor_value_info("b", TP.FLOAT, None)])
+    m = H.make_model(g, opset_imports=[H.make_opsetid("", 18), H.make_opsetid("custom", 1)], functions=[fn])
+    m.ir_version = 10
+    import onnxruntime as ort
+    ort.set_default_logger_severity(3)
+    x = np.arange(24, dtype=np.float32).reshape(2, 3, 4)
+
+    def run(mm):
+        try:
+            return [np.asarray(v) for v in ort.InferenceSession(mm.SerializeToString()).run(None, {"a": x})]
+        except Exception as e:      # noqa: BLE001
+            return [f"{type(e).__name__}: {str(e)[:160]}"]
+    before = run(m)
+    irm = ir.from_proto(m)
+    n_before = 0
+    for f in irm.functions.values():
+        n_before += sum(1 for nd in f if nd.op_type == "Transpose")
+        for nd in f:      # the converter keeps the payload of a constant on the value
+            if nd.op_type == "Constant" and "value" in nd.attributes:
+                nd.outputs[0].const_value = nd.attributes["value"].as_tensor()
+        opt.remove_redundant_transpose_reduce_ir(f.graph if hasattr(f, "graph") else f)
+    n_after = sum(1 for f in irm.functions.values() for nd in f if nd.op_type == "Transpose")
+    return before, run(ir.to_proto(irm)), n_before, n_after
 
 
 def _rand_reduce_graph(ir, rng, stats):
@@ -937,6 +981,7 @@ def tie_transpose_reduce_pass(ctx, n_cases):
             return {intern(o.name): dims_of(ir, o) for n in g for o in n.outputs if dims_of(ir, o) is not None}
         before, consts_b = snapshot()
         shapes_b = shapes_now()
+        k0 = len(table)        # every name interned so far: the created names come after
         opt.remove_redundant_transpose_reduce_ir(g)
         # two distinct Value objects under one name: the created axes initializers collide (a finding of its own)
         by_name = {}
@@ -952,11 +997,11 @@ def tie_transpose_reduce_pass(ctx, n_cases):
             continue
         after, consts_a = snapshot()
         shapes_a = shapes_now()
-        out_names = sorted({intern(o.name) for n in g for o in n.outputs})
+        out_names = sorted(k for k in {intern(o.name) for n in g for o in n.outputs} if k <= k0)
         stats["graphs_rewritten"] += int(len(before[0]) != len(after[0]))
         stats["nodes_removed"] += len(before[0]) - len(after[0])
         stats["declared_shapes_changed"] += sum(1 for k in out_names if shapes_b.get(k) != shapes_a.get(k))
-        rows.append((before, consts_b, after, consts_a, shapes_b, shapes_a, out_names))
+        rows.append((before, consts_b, after, consts_a, shapes_b, shapes_a, out_names, k0))
         if c < _N_STALE:
             opt.remove_identity_reshapes_ir(g)
             ort_after = _ort_outputs(_model_bytes(ir, g), c)
@@ -966,26 +1011,30 @@ def tie_transpose_reduce_pass(ctx, n_cases):
     header = common.CASES_HEADER + "From J2O Require Import Graph Redirect ReshapePairPass TransposePairPass TransposeReducePass.\nClose Scope Z_scope.\n" + """
 Definition dims_eqb (a b : option (list dim)) : bool :=
   match a, b with Some x, Some y => list_eqb dim_eqb x y | None, None => true | _, _ => false end.
-Definition chk (c : rgraphT * rgraphT * (nat -> option (list dim)) * list (nat * option (list dim))) : bool :=
-  let '(g, h, sh, sha) := c in
+(* the created Constant nodes are compared up to the name of their output (after norm_rm nobody mentions it) *)
+Definition norm_c (k0 : nat) (n : node) : node :=
+  if String.eqb (n_op n) "Constant" && forallb (fun y => Nat.ltb k0 y) (n_outs n) then mkNode (n_op n) (n_attrs n) [] [] [0] else n.
+Definition chk (c : rgraphT * rgraphT * (nat -> option (list dim)) * list (nat * option (list dim)) * nat) : bool :=
+  let '(g, h, sh, sha, k0) := c in
   let r := tr_pass_sh 40 g sh in
   let g' := fst r in
-  list_eqb node_eqb (map (norm_rm g') (rt_nodes g')) (map (norm_rm h) (rt_nodes h)) && leqb (rt_outputs g') (rt_outputs h)
+  list_eqb node_eqb (map (fun n => norm_c k0 (norm_rm g' n)) (rt_nodes g')) (map (fun n => norm_c k0 (norm_rm h n)) (rt_nodes h))
+  && leqb (rt_outputs g') (rt_outputs h)
   && forallb (fun p => dims_eqb (snd r (fst p)) (snd p)) sha.
 """
 
     def lit_nodes(ns):
         return "[" + "; ".join(f'mkNode "{op}"%string {nl(a)} {nl(i)} {nl(cc)} {nl(o)}' for op, a, i, cc, o in ns) + "]"
 
-    def rt(gr, consts):
-        return f"(mkRT {lit_nodes(gr[0])} {nl(gr[1])} {coq_fn(consts, '(list Z)', lambda v: '(Some [' + '; '.join(f'({x})%Z' for x in v) + '])')})"
+    def rt(gr, consts, nxt):
+        return f"(mkRT {lit_nodes(gr[0])} {nl(gr[1])} {coq_fn(consts, '(list Z)', lambda v: '(Some [' + '; '.join(f'({x})%Z' for x in v) + '])')} {nxt})"
 
     def render(chunk, off):
         items = []
-        for bf, cb, af, ca, shb, sha, names in chunk:
+        for bf, cb, af, ca, shb, sha, names, k0 in chunk:
             shf = coq_fn(shb, '(list dim)', lambda v: '(Some ' + dims_lit(v) + ')')
             shl = "[" + "; ".join(f"({k}, {'Some ' + dims_lit(sha[k]) if k in sha else 'None'})" for k in names) + "]"
-            items.append(f"({rt(bf, cb)}, {rt(af, ca)}, {shf}, {shl})")
+            items.append(f"({rt(bf, cb, k0 + 1)}, {rt(af, ca, 0)}, {shf}, {shl}, {k0})")
         return "Definition cs := [\n" + ";\n".join(items) + "].\nEval vm_compute in bad_idx_ chk 0 cs.\n"
     bad, err = collect_bad(*coq_eval_batches(ctx, "c02_transpose_reduce", header, rows, render))
     ctx.oblige(f"tie:TransposeReducePass.v tr_pass_sh == remove_redundant_transpose_reduce_ir ({len(rows)} graphs, "
@@ -996,6 +1045,19 @@ Definition chk (c : rgraphT * rgraphT * (nat -> option (list dim)) * list (nat *
     ctx.oblige(f"tie:remove_redundant_transpose_reduce_ir + remove_identity_reshapes_ir on the {_N_STALE} stale-shape graphs (T2's output with / "
                "without a declared shape): onnxruntime outputs (shapes and values) are the same before and after", not ort_bad, "tie",
                f"outputs differ: {ort_bad[:3]}")
+    fb_bad = []
+    fb_folded = 0
+    for i in range(3):
+        bf, af, nb, na = _function_body_reduce_case(ir, opt, i)
+        fb_folded += int(na < nb)
+        if not _same_outputs(bf, af) or (bf and isinstance(bf[0], str)):
+            fb_bad.append((i, str(bf)[:160], str(af)[:160]))
+    ctx.oblige(f"tie:remove_redundant_transpose_reduce_ir on the BODY of a function (3 graphs, axes as a constant input; {fb_folded} folded): the model "
+               "still loads and computes the same in onnxruntime (the re-mapped axes are a Constant node, not an initializer)", not fb_bad and fb_folded == 3, "tie",
+               f"function-body cases: {fb_bad[:2]} folded {fb_folded}")
+    for i, sb, sa in fb_bad:
+        ctx.violate("remove_redundant_transpose_reduce_ir:function-body-initializer",
+                    f"the pass run on a function body breaks the model (case {i}): before {sb} after {sa}", {"tie": "transpose_reduce", "case": i})
     for c, sb, sa in ort_bad:
         ctx.violate("remove_redundant_transpose_reduce_ir:stale-declared-shape",
                     f"transpose_reduce + identity_reshapes change the model's outputs on stale-shape graph {c}: before {sb} after {sa}",
@@ -1575,4 +1637,72 @@ Definition chk (c : ograph * list (nat * option (list dim)) * list (nat * option
                err is None and bad == [], "tie",
                err if err is not None else f"model and implementation differ on cases {bad[:6]}: {[rows[i] for i in bad[:2]]}")
     ctx.coverage["propagate_elem_tie"] = dict(stats)
+    return rows, bad
+
+
+# ------------------------------------------------------------------ remove_dead_nodes_ir (library RemoveUnusedNodesPass), restricted
+def _rand_dce_graph(ir, rng, stats):
+    """single-output nodes only (the model is fail-closed otherwise), dead chains, values kept alive by graph outputs / nested captures"""
+    b = _Builder(ir, rng)
+    for _ in range(rng.randint(1, 2)):
+        b.inp((2, 3))
+    if rng.random() < 0.5:
+        b.vals.append(b.const(np.ones((2, 3), np.float32)))
+    outs = []
+    for _ in range(rng.randint(2, 9)):
+        op = rng.choice(["Relu", "Neg", "Abs", "Add", "Mul", "Identity", "Transpose"])
+        ins = [rng.choice(b.vals) for _ in range(2 if op in ("Add", "Mul") else 1)]
+        v = b.node(op, ins, (2, 3), domain=("custom" if rng.random() < 0.05 else ""))
+        r = rng.random()
+        if r < 0.2:
+            outs.append(v)
+        elif r < 0.28:
+            outs.append(b.if_capturing([v]))
+            stats["captured"] += 1
+    if not outs:
+        outs.append(rng.choice([v for v in b.vals if v.producer() is not None] or b.vals))
+    uniq = []
+    for v in outs:
+        if v not in uniq:
+            uniq.append(v)
+    return b, b.graph(uniq)
+
+
+def tie_dce_pass(ctx, n_cases):
+    import collections
+    import onnx_ir as ir
+    from jax2onnx.converter import ir_optimizations as opt
+    rng = ctx.rng
+    stats = collections.Counter()
+    rows = []
+    for c in range(n_cases):
+        b, g = _rand_dce_graph(ir, rng, stats)
+        table = {}
+
+        def intern(name):
+            return table.setdefault(name, len(table) + 1)
+        known = {v.name for v in b.inputs + b.consts + b.vals}
+        before = dump(ir, g, intern, known)
+        model = ir.Model(g, ir_version=10)
+        opt.remove_dead_nodes_ir(model)
+        after = dump(ir, g, intern, known)
+        stats["graphs_changed"] += int(before != after)
+        stats["nodes_removed"] += len(before[0]) - len(after[0])
+        rows.append((before, after))
+    header = common.CASES_HEADER + "From J2O Require Import Graph Redirect ReshapePairPass TransposePairPass DcePass.\nClose Scope Z_scope.\n" + """
+Definition chk (c : graph * (list node * list nat)) : bool :=
+  let '(g, (ns, outs)) := c in
+  let g' := dce_pass g in
+  dce_guard g && list_eqb node_eqb (g_nodes g') ns && leqb (g_outputs g') outs.
+"""
+
+    def render(chunk, off):
+        items = [f"(mkGraph {coq_nodes(bf[0])} {nl(bf[1])}, ({coq_nodes(af[0])}, {nl(af[1])}))" for bf, af in chunk]
+        return "Definition cs := [\n" + ";\n".join(items) + "].\nEval vm_compute in bad_idx_ chk 0 cs.\n"
+    bad, err = collect_bad(*coq_eval_batches(ctx, "c02_dce", header, rows, render))
+    ctx.oblige(f"tie:DcePass.v dce_pass == remove_dead_nodes_ir (onnx_ir RemoveUnusedNodesPass) on single-output graphs ({len(rows)} random graphs, "
+               f"{stats['graphs_changed']} changed, {stats['nodes_removed']} nodes removed, {stats['captured']} values kept alive by a nested capture)",
+               err is None and bad == [], "tie",
+               err if err is not None else f"model and implementation differ on cases {bad[:6]}: {[rows[i] for i in bad[:2]]}")
+    ctx.coverage["dce_tie"] = dict(stats)
     return rows, bad
